@@ -22,13 +22,13 @@ namespace OdlModel.C17
 open OdlModel.Ufunc
 
 /-- The weighting the code gives to a freshly wrapped tensor result (specification):
-non-floating → default; floating → propagated iff `__call__` with one output, or another
-method with unchanged shape; constant 1 with the same exponent if the shape changed; the
-two-output `__call__` never propagates. -/
+non-floating → default; two-output `__call__` → default (documented: no rule to map it);
+otherwise propagated iff the shape is the element's shape, constant 1 with the same exponent
+if the shape changed (reductions, outer products, broadcasting against a larger operand). -/
 def expectedWeighting (s : TSelf) (m : Method) (nout : Nat) (sh : List Nat) (dt : DType) :
     Weighting :=
   if !dt.isFloating then Weighting.default
-  else if m = .call then (if nout = 1 then s.w else Weighting.default)
+  else if m = .call ∧ nout ≠ 1 then Weighting.default
   else if sh = s.shape then s.w else .const 1 s.w.exp
 
 /-- NumPy's rule for the axes that survive `ufunc.reduce(axis=…)`: negative axes count from
@@ -36,19 +36,17 @@ the end. -/
 def npKeptAxes (ndim : Nat) (axis : List Int) : List Nat :=
   (List.range ndim).filter (fun i => !(axis.map (· % (ndim : Int))).contains (i : Int))
 
-/-- A request is *regular* for the tensor glue when none of the four recorded defects / NumPy
-error paths applies: well-formed `out` tuple of accepted kinds, no 0-d `out` array, NumPy
-returns arrays (one per output), the weighting is constant (or the result dtype can hold a
-float64 weight array), and for `__call__` NumPy's result shape is the element's shape up to
-leading unit axes (no broadcasting to a larger shape). -/
+/-- A request is *regular* for the tensor glue: well-formed `out` tuple of accepted kinds,
+NumPy returns arrays of a numeric dtype (one per output), and — the one remaining recorded
+defect, C17-F4 — the weighting is constant or the result dtype can hold a float64 weight
+array.  (Before the repairs of C17-F1 and C17-F5 it also had to exclude 0-d `out` arrays and
+`__call__` results larger than the element's shape.) -/
 def RegularT (s : TSelf) (m : Method) (nout : Nat) (outs : List OutKind) (vals : List NpVal) :
     Prop :=
   arityOk m nout outs.length = true ∧ outs.all validOutT = true ∧
-  (∀ o ∈ outs, o ≠ .ndarray0) ∧
   (m = .call → (nout = 1 ∨ nout = 2) ∧ vals.length = nout) ∧ (m ≠ .call → vals.length = 1) ∧
   (∀ v ∈ vals, ∃ sh dt, v = .arr sh dt ∧ dt.isNumeric = true ∧
-      (dt.isFloating = true → (∃ c e, s.w = .const c e) ∨ dt.canCastFromF64 = true) ∧
-      (m = .call → padShape s.shape.length sh = s.shape))
+      (dt.isFloating = true → (∃ c e, s.w = .const c e) ∨ dt.canCastFromF64 = true))
 
 end OdlModel.C17
 
@@ -185,19 +183,17 @@ theorem C17.padShape_self (l : List Nat) : padShape l.length l = l := by
 set_option maxHeartbeats 1000000 in
 /-- `ufunc_result_space` (tensor): if the call succeeds and no `out` was given at position `i`
 where NumPy returned an array of shape `sh` and dtype `dt`, then the returned object is a
-tensor-space element (`wrapT`: a space of the same kind) with NumPy's dtype, with NumPy's
-shape (for `__call__`: the element's own shape, which NumPy's shape equals up to leading unit
-axes), and with the weighting `expectedWeighting` (propagated iff floating and unchanged
-shape, constant 1 with the same exponent if the shape changed, default if non-floating). -/
+tensor-space element (`wrapT`: a space of the same kind) with EXACTLY NumPy's shape and
+dtype, and with the weighting `expectedWeighting` (propagated iff floating and unchanged
+shape, constant 1 with the same exponent if the shape changed, default if non-floating or
+for two-output ufuncs).  All methods, any `out` tuple, any shapes, dtypes, weighting. -/
 theorem C17.ufunc_result_space_tensor (s : TSelf) (m : Method) (nout : Nat)
     (outs : List OutKind) (vals : List NpVal) (rets : List Ret)
     (h : tensorDispatch s m nout outs (.ok vals) = .ok rets)
     (i : Nat) (hi : (outs.getD i .none).given = false)
     (sh : List Nat) (dt : DType) (hv : vals[i]? = some (.arr sh dt)) :
-    ∃ sh', rets[i]? = some (.wrapT sh' dt (expectedWeighting s m nout sh dt)) ∧
-      padShape sh'.length sh = sh' ∧ (m ≠ .call → sh' = sh) ∧ (m = .call → sh' = s.shape) := by
+    rets[i]? = some (.wrapT sh dt (expectedWeighting s m nout sh dt)) := by
   unfold tensorDispatch at h
-  have hp := C17.padShape_self sh
   rcases vals with _ | ⟨v1, _ | ⟨v2, _ | ⟨v3, vt⟩⟩⟩
   · simp at hv
   · rcases i with _ | j
@@ -223,29 +219,30 @@ theorem C17.ufunc_result_space_tensor (s : TSelf) (m : Method) (nout : Nat)
     · simp at hv
   · cases m <;> (repeat' split at h) <;> simp_all
 
-/-! ## Counterexamples for the recorded defects (the model follows the code as it is) -/
+/-! ## The repaired defects (model of the fixed code) and the one that remains -/
 
-/-- Finding C17-F1 on the model: `np.add(x, y)` with `x` in `rn(3)` and `y` of shape `(2, 3)`:
-NumPy's result has shape `(2, 3)`, `__call__` builds a space of `self.shape = (3,)` and
-`element(res)` raises `ValueError`.  So "the result is wrapped with NumPy's shape" FAILS for
-`__call__` when broadcasting enlarges the shape (it holds for the other methods). -/
-theorem C17.call_broadcast_larger_fails :
-    tensorDispatch ⟨[3], Weighting.default⟩ .call 1 [] (.ok [.arr [2, 3] .float64]) =
-      .err "ValueError" ∧
-    tensorDispatch ⟨[3], Weighting.default⟩ .outer 1 [] (.ok [.arr [2, 3] .float64]) =
-      .ok [.wrapT [2, 3] .float64 (.const 1 (some 2))] := by decide
+/-- C17-F1 repaired: `np.add(x, y)` with `x` in a weighted `rn(3)` and `y` of shape `(2, 3)`
+is wrapped in a space of NumPy's shape `(2, 3)`, unweighted with the same exponent — exactly
+as `outer` does.  The OLD wrapping (`wrapCallOld`: space of `self.shape`) raised. -/
+theorem C17.call_broadcast_larger :
+    tensorDispatch ⟨[3], .const 2 (some 1)⟩ .call 1 [] (.ok [.arr [2, 3] .float64]) =
+      .ok [.wrapT [2, 3] .float64 (.const 1 (some 1))] ∧
+    tensorDispatch ⟨[3], .const 2 (some 1)⟩ .outer 1 [] (.ok [.arr [2, 3] .float64]) =
+      .ok [.wrapT [2, 3] .float64 (.const 1 (some 1))] ∧
+    out1 (wrapCallOld ⟨[3], .const 2 (some 1)⟩ true (.arr [2, 3] .float64)) = .err "ValueError" := by
+  decide
 
-/-- Finding C17-F4 on the model: array-weighted float64 space, float32 result: the space
-constructor refuses the weighting (`ValueError`). -/
+/-- Finding C17-F4 (open) on the model: array-weighted float64 space, float32 result: the
+space constructor refuses the weighting (`ValueError`). -/
 theorem C17.array_weighting_narrow_dtype_fails :
     tensorDispatch ⟨[3], .array (some 2)⟩ .call 1 [] (.ok [.arr [3] .float32]) =
       .err "ValueError" := by decide
 
-/-- Finding C17-F5 on the model: a 0-d `ndarray` as `out` (full reduction) raises
-`IndexError` from `writable_array`'s `obj[:] = arr`, whatever NumPy did. -/
-theorem C17.zero_dim_out_fails (s : TSelf) (np : NpRes) :
-    tensorDispatch s .reduce 1 [.ndarray0] np = .err "IndexError" := by
-  simp [tensorDispatch, arityOk, validOutT]
+/-- C17-F5 repaired: a 0-d `ndarray` given as `out` of a full reduction is written to and
+returned like any other array (NumPy hands back the 0-d array, not a scalar). -/
+theorem C17.zero_dim_out (s : TSelf) (dt : DType) :
+    tensorDispatch s .reduce 1 [.ndarray0] (.ok [.arr [] dt]) = .ok [.given 0] := by
+  simp [tensorDispatch, arityOk, validOutT, OutKind.given]
 
 /-! ## Totality on regular requests -/
 
@@ -260,25 +257,27 @@ theorem C17.ctorT_ok (dt : DType) (w : Option Weighting) (hn : dt.isNumeric = tr
   · simp [hn]
   · simp [hn, hw e rfl]
 
-/-- `__call__` wrapping succeeds when NumPy's shape pads to the element's shape. -/
+/-- `__call__` wrapping succeeds for any result shape. -/
 theorem C17.wrapCall_ok (s : TSelf) (p : Bool) (sh : List Nat) (dt : DType)
     (hn : dt.isNumeric = true)
-    (hw : dt.isFloating = true → (∃ c e, s.w = .const c e) ∨ dt.canCastFromF64 = true)
-    (hp : padShape s.shape.length sh = s.shape) :
+    (hw : dt.isFloating = true → (∃ c e, s.w = .const c e) ∨ dt.canCastFromF64 = true) :
     ∃ r, wrapCall s p (.arr sh dt) = .ok r := by
   unfold wrapCall
-  obtain ⟨w', hw'⟩ := C17.ctorT_ok dt (if (p && dt.isFloating) = true then some s.w else none) hn (by
+  obtain ⟨w', hw'⟩ := C17.ctorT_ok dt (if (p && dt.isFloating) = true then
+      (if sh ≠ s.shape then some (.const 1 s.w.exp) else some s.w) else none) hn (by
     intro e he
     split at he
     · rename_i hc
       simp at hc
-      rcases hw hc.2 with ⟨c, e', h⟩ | h
-      · simp_all
-      · exact h
+      split at he
+      · simp at he
+      · rcases hw hc.2 with ⟨c, e', h⟩ | h
+        · simp_all
+        · exact h
     · simp at he)
   dsimp only at hw' ⊢
   rw [hw']
-  simp [hp]
+  simp
 
 /-- Wrapping for the other methods succeeds for any result shape. -/
 theorem C17.wrapMethod_ok (s : TSelf) (sh : List Nat) (dt : DType)
@@ -301,52 +300,64 @@ theorem C17.wrapMethod_ok (s : TSelf) (sh : List Nat) (dt : DType)
   rw [hw']
   simp
 
-/- FULL statement wanted by the property (does NOT hold, see the `_fails` theorems above):
-   for every well-formed call on which NumPy succeeds, the glue succeeds and returns one
-   object per output.  It fails for (C17-F1) `__call__` whose NumPy result is larger than the
-   element's shape, (C17-F4) an array-weighted space with a result dtype that cannot hold
-   float64 weights, (C17-F5) a 0-d `ndarray` as `out`.  `RegularT` excludes exactly these
-   (plus NumPy returning something that is not an array). -/
+/- FULL statement wanted by the property: for every well-formed call on which NumPy succeeds
+   (returning numeric arrays), the glue succeeds and returns one object per output.  After the
+   repairs of C17-F1 (fd350b6) and C17-F5 (6f35866) the ONLY remaining gap is C17-F4: an
+   array-weighted space with a floating result dtype that cannot hold float64 weights
+   (`array_weighting_narrow_dtype_fails`).  `RegularT` excludes exactly that. -/
 
 /-- `ufunc_result_total_partial` (tensor): on every regular request (all methods, one or two
-outputs, any accepted `out` tuple, any shapes / dtypes / weighting) the glue does not raise and
-returns exactly one object per NumPy output.  Together with `ufunc_result_space_tensor` and
-`ufunc_out_identity_tensor` this pins each returned object down completely. -/
-theorem C17.ufunc_result_total_partial (s : TSelf) (m : Method) (nout : Nat) (outs : List OutKind) (vals : List NpVal)
-    (h : RegularT s m nout outs vals) :
+outputs, any accepted `out` tuple incl. 0-d arrays, any result shapes incl. broadcasting to a
+larger shape, any dtypes) the glue does not raise and returns exactly one object per NumPy
+output.  Together with `ufunc_result_space_tensor` and `ufunc_out_identity_tensor` this pins
+each returned object down completely. -/
+theorem C17.ufunc_result_total_partial (s : TSelf) (m : Method) (nout : Nat)
+    (outs : List OutKind) (vals : List NpVal) (h : RegularT s m nout outs vals) :
     ∃ rets, tensorDispatch s m nout outs (.ok vals) = .ok rets ∧ rets.length = vals.length := by
-  obtain ⟨ha, hv, h0, hc, hm, hvals⟩ := h
-  have h0' : outs.any (· = .ndarray0) = false := by
-    rw [List.any_eq_false]; intro o ho; simpa using h0 o ho
+  obtain ⟨ha, hv, hc, hm, hvals⟩ := h
   unfold tensorDispatch
-  simp only [ha, hv, h0', Bool.not_true, Bool.false_eq_true, if_false]
+  simp only [ha, hv, Bool.not_true, Bool.false_eq_true, if_false]
   by_cases hcall : m = .call
   · subst hcall
     obtain ⟨hn, hl⟩ := hc rfl
     rcases hn with rfl | rfl
     · rcases vals with _ | ⟨v, _ | _⟩ <;> simp at hl
-      obtain ⟨sh, dt, rfl, hnum, hw, hp⟩ := hvals v (by simp)
-      obtain ⟨r, hr⟩ := C17.wrapCall_ok s true sh dt hnum hw (hp rfl)
+      obtain ⟨sh, dt, rfl, hnum, hw⟩ := hvals v (by simp)
+      obtain ⟨r, hr⟩ := C17.wrapCall_ok s true sh dt hnum hw
       simp only [out1, hr, reduceIte]
       split <;> simp
     · rcases vals with _ | ⟨v1, _ | ⟨v2, _ | _⟩⟩ <;> simp at hl
-      obtain ⟨sh1, dt1, rfl, hnum1, hw1, hp1⟩ := hvals v1 (by simp)
-      obtain ⟨sh2, dt2, rfl, hnum2, hw2, hp2⟩ := hvals v2 (by simp)
-      obtain ⟨r1, hr1⟩ := C17.wrapCall_ok s false sh1 dt1 hnum1 hw1 (hp1 rfl)
-      obtain ⟨r2, hr2⟩ := C17.wrapCall_ok s false sh2 dt2 hnum2 hw2 (hp2 rfl)
+      obtain ⟨sh1, dt1, rfl, hnum1, hw1⟩ := hvals v1 (by simp)
+      obtain ⟨sh2, dt2, rfl, hnum2, hw2⟩ := hvals v2 (by simp)
+      obtain ⟨r1, hr1⟩ := C17.wrapCall_ok s false sh1 dt1 hnum1 hw1
+      obtain ⟨r2, hr2⟩ := C17.wrapCall_ok s false sh2 dt2 hnum2 hw2
       cases hg1 : (outs.getD 0 .none).given <;> cases hg2 : (outs.getD 1 .none).given <;>
         simp [out2, hr1, hr2]
   · have hl := hm hcall
     rcases vals with _ | ⟨v, _ | _⟩ <;> simp at hl
-    obtain ⟨sh, dt, rfl, hnum, hw, -⟩ := hvals v (by simp)
+    obtain ⟨sh, dt, rfl, hnum, hw⟩ := hvals v (by simp)
     obtain ⟨r, hr⟩ := C17.wrapMethod_ok s sh dt hnum hw
     cases m <;> simp_all [out1] <;> split <;> simp
 
-example : RegularT ⟨[2, 3], .array (some 2)⟩ .reduce 1 [.own] [.arr [3] .complex128] := by
-  refine ⟨by decide, by decide, by decide, by decide, by decide, ?_⟩
+/-- The FULL statement for constant weightings (every space ODL builds by default, every
+`uniform_discr` tensor space, every `weighting=<float>` space): no exclusion left. -/
+theorem C17.ufunc_result_total_const (shape : List Nat) (c : Rat) (e : Exponent) (m : Method)
+    (nout : Nat) (outs : List OutKind) (vals : List NpVal)
+    (ha : arityOk m nout outs.length = true) (hv : outs.all validOutT = true)
+    (hc : m = .call → (nout = 1 ∨ nout = 2) ∧ vals.length = nout)
+    (hm : m ≠ .call → vals.length = 1)
+    (hvals : ∀ v ∈ vals, ∃ sh dt, v = .arr sh dt ∧ dt.isNumeric = true) :
+    ∃ rets, tensorDispatch ⟨shape, .const c e⟩ m nout outs (.ok vals) = .ok rets ∧
+      rets.length = vals.length :=
+  C17.ufunc_result_total_partial _ m nout outs vals ⟨ha, hv, hc, hm, fun v hvm => by
+    obtain ⟨sh, dt, h1, h2⟩ := hvals v hvm
+    exact ⟨sh, dt, h1, h2, fun _ => Or.inl ⟨c, e, rfl⟩⟩⟩
+
+example : RegularT ⟨[2, 3], .array (some 2)⟩ .reduce 1 [.ndarray0] [.arr [] .complex128] := by
+  refine ⟨by decide, by decide, by decide, by decide, ?_⟩
   intro v hv
   simp at hv
-  exact ⟨[3], .complex128, hv, by decide, fun _ => Or.inr (by decide), by decide⟩
+  exact ⟨[], .complex128, hv, by decide, fun _ => Or.inr (by decide)⟩
 
 /-! ## Discretized elements: `reduce`, `outer` -/
 
@@ -362,12 +373,17 @@ theorem C17.tensor_method_none (s : TSelf) (m : Method) (hm : m ≠ .call) (sh :
   unfold tensorDispatch
   cases m <;> simp_all [arityOk, OutKind.given, validOutT]
 
-/-- `wrapMethod` for a constant weighting never fails for a numeric dtype. -/
-theorem C17.wrapMethod_const (sh shp : List Nat) (c : Rat) (e : Exponent) (dt : DType) (hn : dt.isNumeric = true) :
+/-- A floating dtype is numeric. -/
+theorem C17.floating_numeric (dt : DType) (h : dt.isFloating = true) : dt.isNumeric = true := by
+  cases dt <;> simp_all [DType.isFloating, DType.isNumeric]
+
+/-- `wrapMethod` for a constant weighting never fails, whatever the dtype. -/
+theorem C17.wrapMethod_const (sh shp : List Nat) (c : Rat) (e : Exponent) (dt : DType) :
     wrapMethod ⟨shp, .const c e⟩ sh dt = .ok (.wrapT sh dt
       (if dt.isFloating then (if sh ≠ shp then .const 1 e else .const c e) else Weighting.default)) := by
   unfold wrapMethod ctorT
-  cases hd : dt.isFloating <;> by_cases hs : sh = shp <;> simp [hn, hs, Weighting.exp]
+  cases hd : dt.isFloating <;> by_cases hs : sh = shp <;>
+    simp [hs, Weighting.exp, C17.floating_numeric, hd]
 
 /-- `reduce` on a discretized element delegates to the tensor and re-wraps by `reduceWrap`. -/
 theorem C17.discr_reduce_unfold (s : DSelf) (ins : List InKind) (ps : List DSelf) (ax : Axis)
@@ -397,39 +413,46 @@ theorem C17.discr_outer_unfold (s p1 p2 : DSelf) (dt : DType) (sh : List Nat) :
   rfl
 
 
-/-- For in-range non-negative axes the code's `reduced_axes` are exactly the axes NumPy keeps,
-for every number of dimensions and every axis list. -/
-theorem C17.discr_reduce_axes (ndim : Nat) (axis : List Int)
-    (h : ∀ a ∈ axis, 0 ≤ a ∧ a < (ndim : Int)) :
+/-- C17-F2 repaired: the code's `reduced_axes` are exactly the axes NumPy keeps, for every
+number of dimensions and EVERY axis list (negative entries included). -/
+theorem C17.discr_reduce_axes (ndim : Nat) (axis : List Int) :
     reducedAxes ndim (.ints axis) = npKeptAxes ndim axis := by
+  simp [reducedAxes, npKeptAxes]
+
+/-- Sensitivity: the old code (`reducedAxesOld`, raw integers) agrees with NumPy only for
+in-range non-negative axes … -/
+theorem C17.discr_reduce_axes_old (ndim : Nat) (axis : List Int)
+    (h : ∀ a ∈ axis, 0 ≤ a ∧ a < (ndim : Int)) :
+    reducedAxesOld ndim (.ints axis) = npKeptAxes ndim axis := by
   have : axis.map (· % (ndim : Int)) = axis := by
     conv => rhs; rw [← List.map_id axis]
     apply List.map_congr_left
     intro a ha
     obtain ⟨h0, h1⟩ := h a ha
     simp [Int.emod_eq_of_lt h0 h1]
-  simp [reducedAxes, npKeptAxes, this]
+  simp [reducedAxesOld, npKeptAxes, this]
 
-example : reducedAxes 3 (.ints [0, 2]) = [1] ∧ npKeptAxes 3 [0, 2] = [1] := by decide
+example : reducedAxes 3 (.ints [0, -1]) = [1] ∧ npKeptAxes 3 [0, 2] = [1] := by decide
 
-/-- Finding C17-F2 on the model: with a negative axis the code keeps every axis (it tests
-`i not in axis` with the raw integers), NumPy drops the last one; the rebuilt space has the
-wrong shape and `element(res)` raises `ValueError`. -/
-theorem C17.discr_reduce_negative_axis_fails :
-    reducedAxes 2 (.ints [-1]) = [0, 1] ∧ npKeptAxes 2 [-1] = [0] ∧
-    discrDispatch ⟨[⟨0, 1, 2⟩, ⟨0, 3, 3⟩], .float64, 1/2, some 2⟩ .reduce 1 [] [.own] []
-      (.ints [-1]) false (.ok [.arr [2] .float64]) = .err "ValueError" := by decide
+/-- … and kept every axis for a negative one (the defect C17-F2), while the repaired code
+drops the right axis and the call succeeds. -/
+theorem C17.discr_reduce_negative_axis :
+    reducedAxesOld 2 (.ints [-1]) = [0, 1] ∧ reducedAxes 2 (.ints [-1]) = [0] ∧
+    npKeptAxes 2 [-1] = [0] ∧
+    ∃ w, discrDispatch ⟨[⟨0, 1, 2⟩, ⟨0, 3, 3⟩], .float64, 1/2, some 2⟩ .reduce 1 [] [.own] []
+      (.ints [-1]) false (.ok [.arr [2] .float64]) =
+      .ok [.wrapD [2] .float64 w [⟨0, 1, 2⟩]] :=
+  ⟨by decide, by decide, by decide, _, rfl⟩
 
 /-- `reduce` on a discretized element (no `out`, `keepdims=False`): if NumPy's result has the
-shape of the kept axes, the result is a discretized element whose partition consists of the
-kept axes of the original partition, in order, with NumPy's dtype; its weighting is the cell
-volume of the remaining partition (for the same or a floating dtype). For every partition,
-every axis argument and every dtype. -/
+shape of the kept axes (which, by `discr_reduce_axes`, are NumPy's own), the result is a
+discretized element whose partition consists of the kept axes of the original partition, in
+order, with NumPy's dtype; its weighting is the cell volume of the remaining partition (for
+the same or a floating dtype). For every partition, every axis argument and every dtype. -/
 theorem C17.discr_reduce_result (s : DSelf) (ins : List InKind) (ps : List DSelf) (ax : Axis)
     (dt : DType) (sh : List Nat)
     (hsh : sh = ((reducedAxes s.part.length ax).map (fun i => s.part.getD i cellDefault)).map
-      (·.n))
-    (hnum : dt.isNumeric = true) :
+      (·.n)) :
     discrDispatch s .reduce 1 [] ins ps ax false (.ok [.arr sh dt]) =
       .ok [.wrapD sh dt
         (if dt = s.dt then .const (cellVolume ((reducedAxes s.part.length ax).map
@@ -442,40 +465,69 @@ theorem C17.discr_reduce_result (s : DSelf) (ins : List InKind) (ps : List DSelf
   have hp := C17.padShape_self (((reducedAxes s.part.length ax).map
     (fun i => s.part.getD i cellDefault)).map (·.n))
   simp only [List.length_map] at hp
-  rw [C17.discr_reduce_unfold, C17.tensor_method_none _ _ (by decide), DSelf.toT, C17.wrapMethod_const _ _ _ _ _ hnum]
+  rw [C17.discr_reduce_unfold, C17.tensor_method_none _ _ (by decide), DSelf.toT,
+    C17.wrapMethod_const]
   simp only [out1, bindOutcome, reduceWrap, List.length_map, hp, if_true]
 
 example : ∃ w, discrDispatch ⟨[⟨0, 1, 2⟩, ⟨0, 3, 3⟩], .float64, 1/2, some 2⟩ .reduce 1 [] [.own] []
     (.ints [0]) false (.ok [.arr [3] .float64]) =
     .ok [.wrapD [3] .float64 w [⟨0, 3, 3⟩]] := ⟨_, rfl⟩
 
-/-- `outer` of two discretized elements with a numeric result dtype: partitions appended,
-weighting constants multiplied. -/
-theorem C17.discr_outer_result (s p1 p2 : DSelf) (dt : DType) (hnum : dt.isNumeric = true) :
+/-- `outer` of two discretized elements, EVERY result dtype (C17-F3 repaired): partitions
+appended; numeric dtype → weighting constants multiplied; boolean → default weighting. -/
+theorem C17.discr_outer_result (s p1 p2 : DSelf) (dt : DType) :
     ∃ e, discrDispatch s .outer 1 [] [.own, .own] [p1, p2] .absent false
       (.ok [.arr ((p1.part ++ p2.part).map (·.n)) dt]) =
-      .ok [.wrapD ((p1.part ++ p2.part).map (·.n)) dt (.const (p1.wc * p2.wc) e)
+      .ok [.wrapD ((p1.part ++ p2.part).map (·.n)) dt
+        (if dt.isNumeric then .const (p1.wc * p2.wc) e else Weighting.default)
         (p1.part ++ p2.part)] := by
-  rw [C17.discr_outer_unfold, C17.tensor_method_none _ _ (by decide), DSelf.toT, C17.wrapMethod_const _ _ _ _ _ hnum]
-  simp only [out1, bindOutcome, outerWrap, hnum]
+  rw [C17.discr_outer_unfold, C17.tensor_method_none _ _ (by decide), DSelf.toT,
+    C17.wrapMethod_const]
+  simp only [out1, bindOutcome, outerWrap]
   refine ⟨(if dt.isFloating = true then
       if List.map (fun x => x.n) (p1.part ++ p2.part) ≠ s.shape then Weighting.const 1 s.exp
       else Weighting.const s.wc s.exp
     else Weighting.default).exp, ?_⟩
-  simp
+  cases hn : dt.isNumeric <;> cases hf : dt.isFloating <;> simp_all
+  exact absurd (C17.floating_numeric dt hf) (by simp [hn])
 
-/-- Finding C17-F3 on the model: `np.equal.outer(x, x)` (boolean result) raises `ValueError`
-because the tensor space is rebuilt with a weighting. Also the documented rejections. -/
-theorem C17.discr_outer_bool_fails :
+/-- `np.equal.outer(x, x)` now works (the old `outerWrapOld` raised: C17-F3); the three
+DOCUMENTED rejections of the discretized glue stay rejections. -/
+theorem C17.discr_outer_bool_and_documented_rejections :
     let s : DSelf := ⟨[⟨0, 1, 2⟩], .float64, 1/2, some 2⟩
     discrDispatch s .outer 1 [] [.own, .own] [s, s] .absent false
-      (.ok [.arr [2, 2] .bool]) = .err "ValueError" ∧
+      (.ok [.arr [2, 2] .bool]) = .ok [.wrapD [2, 2] .bool Weighting.default [⟨0, 1, 2⟩, ⟨0, 1, 2⟩]] ∧
+    out1 (outerWrapOld s s (.wrapT [2, 2] .bool Weighting.default)) = .err "ValueError" ∧
     discrDispatch s .outer 1 [] [.own, .ndarray] [s] .absent false
       (.ok [.arr [2, 2] .float64]) = .err "TypeError" ∧
     discrDispatch s .reduceat 1 [] [.own] [] .absent false
       (.ok [.arr [2] .float64]) = .err "ValueError" ∧
     discrDispatch s .reduce 1 [] [.own] [] .absent true
       (.ok [.arr [1] .float64]) = .err "ValueError" := by decide
+
+/-- `__call__` (one output) and `accumulate` on a discretized element without `out`, NumPy
+result of the element's shape: the result is a discretized element over the SAME partition
+with NumPy's dtype; the weighting (the cell volume constant of the space) is propagated iff
+the result is floating.  For every partition, dtype, weighting constant and exponent. -/
+theorem C17.ufunc_result_space_discr (s : DSelf) (m : Method) (hm : m = .call ∨ m = .accumulate)
+    (ins : List InKind) (ps : List DSelf) (ax : Axis) (kd : Bool) (dt : DType) :
+    discrDispatch s m 1 [] ins ps ax kd (.ok [.arr s.shape dt]) =
+      .ok [.wrapD s.shape dt
+        (if dt.isFloating then .const s.wc s.exp else Weighting.default) s.part] := by
+  rcases hm with rfl | rfl
+  · unfold discrDispatch tensorDispatch
+    cases hf : dt.isFloating <;>
+      simp [arityOk, validOutT, validOutD, unwrapOut, OutKind.given, bindOutcome, out1,
+        wrapCall, ctorT, DSelf.toT, rewrapSame, hf, Weighting.default, Weighting.exp,
+        C17.floating_numeric]
+  · unfold discrDispatch
+    simp only [arityOk]
+    simp [validOutD, unwrapOut, OutKind.given, C17.tensor_method_none, DSelf.toT,
+      C17.wrapMethod_const, bindOutcome, out1, rewrapSame]
+
+example : discrDispatch ⟨[⟨0, 1, 2⟩, ⟨0, 3, 3⟩], .float64, 1/2, some 1⟩ .call 1 [] [.own] []
+    .absent false (.ok [.arr [2, 3] .bool]) =
+    .ok [.wrapD [2, 3] .bool Weighting.default [⟨0, 1, 2⟩, ⟨0, 3, 3⟩]] := by decide
 
 /-! ## Mixed operands -/
 
@@ -547,19 +599,22 @@ example : element [1, 3] .float64 ⟨[3], .float64, true, true, true⟩ .any = .
     element [3] .float64 ⟨[3], .float32, true, true, true⟩ .any = .ok false ∧
     element [3] .float64 ⟨[4], .float64, true, true, true⟩ .any = .err "ValueError" := by decide
 
-/-- The write-back contract of `writable_array`: it fails exactly for a 0-d array. -/
+/-- The write-back contract of `writable_array` (C17-F5 repaired): it never fails on the
+shape of the target; the old code failed exactly for a 0-d array. -/
 theorem C17.writable_array_contract (o : OutKind) (d : Bool) :
-    writeBack o d = .indexError ↔ o = .ndarray0 := by
-  cases o <;> cases d <;> simp [writeBack]
+    writeBack o d ≠ .indexError ∧ (writeBackOld o d = .indexError ↔ o = .ndarray0) := by
+  cases o <;> cases d <;> simp [writeBack, writeBackOld]
 
 /-! ## Power spaces -/
 
-/-- Finding C17-F6 on the model: `__array_wrap__` puts every result into the ORIGINAL space, so
-the dtype of the wrapped result is the space's, not NumPy's (`np.isnan(px)` is float);
-`outer` results stay bare arrays; an element as `out` is a `TypeError`. -/
-theorem C17.power_wrap_casts :
+/-- Finding C17-F6 (open) on the model: no `__array_ufunc__` on product-space elements, so
+`outer` results stay bare arrays, an element as `out` is a `TypeError`, a result of another
+shape cannot be wrapped.  The dtype part is repaired (24dcf7e): `np.isnan(px)` is wrapped in
+a boolean power space; the old `powerWrapOld` cast it into the original one. -/
+theorem C17.power_limits :
     powerDispatch ⟨[2, 3], .float64⟩ .call 1 1 [] (.ok [.arr [2, 3] .bool]) =
-      .ok [.wrapP [2, 3] .float64] ∧
+      .ok [.wrapP [2, 3] .bool] ∧
+    out1 (powerWrapOld ⟨[2, 3], .float64⟩ (.arr [2, 3] .bool)) = .ok [.wrapP [2, 3] .float64] ∧
     powerDispatch ⟨[2, 3], .float64⟩ .outer 2 1 [] (.ok [.arr [2, 3, 2, 3] .float64]) =
       .ok [.raw [2, 3, 2, 3] .float64] ∧
     powerDispatch ⟨[2, 3], .float64⟩ .call 2 1 [.own] (.ok [.arr [2, 3] .float64]) =
@@ -568,10 +623,10 @@ theorem C17.power_wrap_casts :
       .err "ValueError" := by decide
 
 /-- What does hold for power spaces: a same-shape result is wrapped as an element of the
-same power space, a `()`-shaped one becomes a scalar, a given `ndarray` is returned itself. -/
+power space of NumPy's dtype, a `()`-shaped one becomes a scalar, a given `ndarray` is returned itself. -/
 theorem C17.power_wrap_same_shape (s : PSelf) (m : Method) (nin : Nat) (dt : DType)
     (hm : m ≠ .at) (hm' : m ≠ .outer) (hs : s.shape ≠ []) :
-    powerDispatch s m nin 1 [] (.ok [.arr s.shape dt]) = .ok [.wrapP s.shape s.dt] ∧
+    powerDispatch s m nin 1 [] (.ok [.arr s.shape dt]) = .ok [.wrapP s.shape dt] ∧
     powerDispatch s m nin 1 [] (.ok [.arr [] dt]) = .ok [.scalar] ∧
     powerDispatch s m nin 1 [.ndarray] (.ok [.arr s.shape dt]) = .ok [.given 0] := by
   cases m <;> simp_all [powerDispatch, out1, powerWrap, OutKind.given]
